@@ -7,11 +7,74 @@ package ntor
 
 import (
 	"bytes"
+	"crypto/sha512"
 	"testing"
 
+	"gitlab.com/yawning/obfs4.git/internal/verifkit/detrand"
 	"gitlab.com/yawning/obfs4.git/internal/verifkit/ev"
 	"gitlab.com/yawning/obfs4.git/internal/verifkit/refx"
+	"gitlab.com/yawning/obfs4.git/internal/x25519ell2"
 )
+
+// vf07Consistent checks one key pair against the reference.
+func vf07Consistent(kp *Keypair) string {
+	if !kp.HasElligator() {
+		return "no representative"
+	}
+	pub := kp.Public().Bytes()[:]
+	repr := append([]byte(nil), kp.Representative().Bytes()[:]...)
+	if ref := refx.ToLE(refx.MapToU(repr)); !bytes.Equal(ref[:], pub) {
+		return "the representative does not map to the public key in the reference Elligator 2 map"
+	}
+	p := refx.Base().ToExt().Mul(refx.Clamp(kp.Private().Bytes()[:]))
+	for _, l := range refx.LowOrder() {
+		le := refx.ToLE(p.Add(l.ToExt()).Affine().MontU())
+		if bytes.Equal(le[:], pub) {
+			return ""
+		}
+	}
+	return "the public key is not [clamp k]B plus a low-order point for the private key returned"
+}
+
+// TestVerifC07KeypairsUnluckyRNG: the generator is scripted so that the first
+// N candidates have no representative (each is rejected with probability 1/2
+// by a healthy generator; N in a row happens with 2^-N).  Whatever NewKeypair
+// then does, it must not hand out a key pair that is not one.
+func TestVerifC07KeypairsUnluckyRNG(t *testing.T) {
+	if err := refx.SelfTest(); err != nil {
+		t.Fatalf("INFRA: %v", err)
+	}
+	c := ev.For("C07")
+	c.Rule("keypairs-unlucky-rng: the 32-byte strings the CSPRNG hands to ntor.NewKeypair(true) are scripted so that the first N candidates (N in {1, 2, 7, 31, 63, 64, 65, 127, 128, 300}) have no representative (classified beforehand with ScalarBaseMult); oracle: NewKeypair returns an error, or a key pair whose representative maps to its public key and whose public key belongs to its private key (reference); non-trivial = N >= 31")
+	var rejecting [][]byte
+	for j := uint64(0); len(rejecting) < 300; j++ {
+		s := detrand.Bytes(0xc0700000000+j, 32)
+		digest := sha512.Sum512(s)
+		var priv, pub, repr [32]byte
+		copy(priv[:], digest[:32])
+		if !x25519ell2.ScalarBaseMult(&pub, &repr, &priv, digest[63]) {
+			rejecting = append(rejecting, s)
+		}
+	}
+	for _, n := range []int{1, 2, 7, 31, 63, 64, 65, 127, 128, 300} {
+		detrand.ClearForced()
+		detrand.Script(rejecting[:n])
+		kp, err := NewKeypair(true)
+		left := detrand.Scripted()
+		detrand.ClearForced()
+		if err == nil {
+			if kp == nil {
+				t.Fatalf("VIOL[c07-newkeypair]: NewKeypair(true) returned neither a key pair nor an error after %d candidates without a representative", n)
+			}
+			if msg := vf07Consistent(kp); msg != "" {
+				t.Fatalf("VIOL[c07-newkeypair-inconsistent]: after %d consecutive candidates without a representative NewKeypair(true) reports success, but %s (private %x public %x representative %x)", n, msg, kp.Private().Bytes()[:], kp.Public().Bytes()[:], kp.Representative().Bytes()[:])
+			}
+		}
+		c.Case(ev.Hash("unlucky", n), n >= 31, []string{"keypairs-unlucky-rng"}, func() any {
+			return map[string]any{"unit": "keypairs-unlucky-rng", "rejected_candidates_scripted": n, "scripted_left_unused": left, "returned_error": err != nil}
+		})
+	}
+}
 
 func TestVerifC07Keypairs(t *testing.T) {
 	if err := refx.SelfTest(); err != nil {
